@@ -151,6 +151,13 @@ var templates = []template{
 		return "(user-call (lambda () (load-string \"\") (load-bytes (to-bytes \"1\")) (load-string \"(set 'ldv 1)\") " + body(es) + " 'done))"
 	}},
 	{name: "user-macro-at-top", render: func(es []string) string { return "(user-mac (progn (load-string \"1\") " + body(es) + " 'done))" }},
+	{name: "host-special-operator", render: func(es []string) string { return strings.ReplaceAll(body(es), "(snap)", "(snap-op)") }},
+	{name: "host-special-operator-in-function", render: func(es []string) string {
+		return "(user-call (lambda () (let ([z 1]) " + strings.ReplaceAll(body(es), "(snap)", "(snap-op)") + " 'done)))"
+	}},
+	{name: "host-go-macro", render: func(es []string) string {
+		return "(funcall (lambda () " + strings.ReplaceAll(body(es), "(snap)", "(snap-mac)") + " 'done))"
+	}},
 	{name: "tail-loop", loop: true, render: func(es []string) string {
 		return fmt.Sprintf("(labels ([lp (i) (if (>= i %d) 'done (progn %s (snap) (lp (+ i 1))))]) (lp 0))", len(es), first(es))
 	}},
@@ -226,6 +233,10 @@ func newRig() *rig {
 		return lisp.Int(g.snapCalls + 1)
 	})
 	g.env = el.MustEnv(el.Opts{Builtins: []lisp.LBuiltinDef{snap, snap1, nx}})
+	// the same host code registered as a SPECIAL OPERATOR and as a Go MACRO (embedders may add both): a panic in
+	// the operator's own Go body unwinds through specialOpCall / macroCall, not through a function call
+	g.env.AddSpecialOps(true, el.Fn("snap-op", nil, func(env *lisp.LEnv, args *lisp.LVal) *lisp.LVal { return snap.Eval(env, lisp.SExpr(nil)) }))
+	g.env.AddMacros(true, el.Fn("snap-mac", nil, func(env *lisp.LEnv, args *lisp.LVal) *lisp.LVal { return snap.Eval(env, lisp.SExpr(nil)) }))
 	// make the host builtins visible from package p as well
 	if o := g.env.Load(prelude); o.IsErr {
 		panic("harness: prelude: " + o.Full())
@@ -680,7 +691,7 @@ func run(r *core.Run) {
 	r.Bound("templates", len(templates))
 	r.Bound("effects_per_operation", seqLen)
 	r.Bound("history_depth", depth)
-	r.Rule("explicit-state BFS over histories of top-level operations on one runtime. Operation = entry point x program template (21: a user-defined function or macro as the top-level form (with nested loads), after nested loads of empty sources, top level, lambda call, the host builtin reached through funcall / apply / as a map callback, a multi-form function defined in another package calling thunks (also swallowed and followed by more effects), let/labels, handler-bind body, inside a handler, ignore-errors, nested load-string with in-package, macro expansion time, tail loop, dotimes, map callback, foldl callback) x effect sequence over 7 effect kinds (set, set!, defun, assoc!, append!, export, use-package) x fault. " +
+	r.Rule("explicit-state BFS over histories of top-level operations on one runtime. Operation = entry point x program template (24: the host code registered as a special operator and as a Go macro, a user-defined function or macro as the top-level form (with nested loads), after nested loads of empty sources, top level, lambda call, the host builtin reached through funcall / apply / as a map callback, a multi-form function defined in another package calling thunks (also swallowed and followed by more effects), let/labels, handler-bind body, inside a handler, ignore-errors, nested load-string with in-package, macro expansion time, tail loop, dotimes, map callback, foldl callback) x effect sequence over 7 effect kinds (set, set!, defun, assoc!, append!, export, use-package) x fault. " +
 		"Depth 1: the COMPLETE fault space of every operation (no fault; ordinary host error and host panic at every host-call index; step budget at every n in 1..N; cancellation at every k in 1..N; physical height limit at every h in 1..H+1). " +
 		"Depth 2: from every distinct state reached (canonical state = list of cleanly completed effects + template and fault kind of the last operation) a second operation from a reduced alphabet under every entry point with boundary faults. A state/transition is non-trivial when the operation was faulted; distinct by (history, operation)")
 	r.Assume("an effect is confirmed when the host builtin (snap) that follows it returned normally; a failed run must be equivalent to the state after c or c+1 effects (the effect completed but its snap did not)")
